@@ -179,6 +179,12 @@ RunPlan(log, now, c) ==
      ELSE Res(0, log \o d.events, now + PlanSpan(c.doc),
               [Reply0 EXCEPT !.kind = "plan", !.id = d.out.epic, !.ids = d.out.tasks, !.edges = d.out.edges])
 
+\* list --ready [--epic E] --json: the ready tasks (in an order ids do not determine here)
+RunListReady(log, now, c) ==
+  LET g == Replay(log)
+  IN IF g.err # "" THEN Rejected(log, now)
+     ELSE Res(0, log, now, [Reply0 EXCEPT !.kind = "list", !.ids = SetToSeq(ReadySet(g, c.epic))])
+
 \* deterministic commands
 Run(log, now, c) ==
   CASE c.name = "new_task"    -> RunNewTask(log, now, c)
@@ -190,7 +196,8 @@ Run(log, now, c) ==
     [] c.name = "prune"       -> RunPrune(log, now, c)
     [] c.name = "compact"     -> RunCompact(log, now, c)
     [] c.name = "plan"        -> RunPlan(log, now, c)
-    [] OTHER                  -> Res(0, log, now, Reply0)      \* reads
+    [] c.name = "list_ready"  -> RunListReady(log, now, c)
+    [] OTHER                  -> Res(0, log, now, Reply0)      \* other reads
 
 \* every outcome the spec allows for c (claim may have to break a tie)
 Outcomes(log, now, c) ==
